@@ -64,6 +64,15 @@ def run(ctx):
             # the copula text is the value of _feature_string(term) (directly or through a named temporary)
             fl_ = hir.through_lets(a[3], hir.let_env(ft["body"]))
             ok = idx == [0, 1] and strip(fl_)["k"] == "MethodCall" and strip(fl_)["method"] == "_feature_string"
+            # ... between the opening (brackets.0, 2nd argument) and the closing bracket (brackets.1, last argument) of _brackets_str(term)
+            lets_ft = hir.let_env(ft["body"])
+
+            def br_k(x):
+                x = strip(hir.through_lets(x, lets_ft))
+                if x["k"] == "Field" and strip(x["e"])["k"] == "MethodCall" and strip(x["e"])["method"] == "_brackets_str":
+                    return x["name"]
+                return None
+            ok = ok and len(a) == 7 and br_k(a[1]) == "0" and br_k(a[6]) == "1"
         ctx.ob("M-TYPST", "statement = subject(component 0), copula, predicate(component 1)", ok, "")
     # constant maps
     fs = f.hir_fn("_feature_string", module="typst_formatter::formatter_enum")
@@ -136,7 +145,12 @@ def run(ctx):
             c2 = hir.find_calls(arms_[2]["body"], "template_components")[0]
             ok = ok and field_path(c0["args"][2]) == (P_SEP,) and field_path(c1["args"][2]) == (P_CON,) and field_path(c2["args"][2]) == (P_SEP,)
             pushes = [field_path(c["args"][0]) for c in hir.find_calls(arms_[2]["body"], "push_str")]
-            ok = ok and pushes[:1] == [(P_CON,)]
+            ok = ok and pushes[:2] == [(P_CON,), (P_SEP,)]          # `connecter separator components` (automut: the separator push deleted)
+            # the infix layout is for exactly TWO components (automut: `(2, _)` -> `(1, _)`)
+            p1 = arms_[1]["pat"]
+            lit2 = p1.get("k") == "Tuple" and p1["pats"] and p1["pats"][0].get("k") == "Expr" and strip(p1["pats"][0]["expr"]).get("k") == "Lit" \
+                and strip(p1["pats"][0]["expr"])["lit"]["v"] == 2
+            ok = ok and lit2
     pushes = [field_path(c["args"][0]) for c in hir.find_calls(tc["body"], "push_str")]
     ok = ok and pushes[0] == (P_BR, "0") and pushes[-1] == (P_BR, "1")
     ctx.ob("M-TYPST", "template_compound: three arity layouts, each emitting the connecter (unless set) and all components between the brackets", bool(ok), "")
@@ -284,6 +298,10 @@ def run(ctx):
                 e_push = hir.find_calls(br[2], "push") if br[2] is not None else []
                 ok = not t_calls and len(e_push) == 1
     ctx.ob("F-POST", "post_process_whitespace: trims, then drops a char only when it and its predecessor are both whitespace", bool(ok), "")
+    # the first character of the trimmed text is always kept: it is pushed before the loop that starts at index 1 (automut: that push deleted)
+    first_push = [c for c in hir.find_calls(pw["body"], "push") if strip(c["args"][0])["k"] == "Index"
+                  and strip(strip(c["args"][0])["idx"]).get("k") == "Lit" and strip(strip(c["args"][0])["idx"])["lit"]["v"] == 0]
+    ctx.ob("F-POST", "post_process_whitespace keeps the first character (push(chars[0]) before the loop)", len(first_push) == 1, "")
     asg = [n for n in hir.walk(pw["body"]) if n.get("k") == "Assign"]
     # ... into the parameter, from the local the kept characters were pushed to (binders by identity, not by name)
     pushed = {field_path(c["recv"]) for c in hir.find_calls(pw["body"], "push") if field_path(c["recv"]) and len(field_path(c["recv"])) == 1}
